@@ -370,6 +370,45 @@ print("PLOTPROBE " + json.dumps(dict(results=res)))
                 if not (r["escaped"] is None and r["status"] is None):
                     ctx.violation("cli:" + text, text, "exit code = execute status %r, no traceback" % r["status"],
                                   "exit %r, stderr %s" % (rc, err[-200:]), "HOME=<empty> python -m ka.cli %r" % text)
+            elif r["status"] in (0, 1) and not r["escaped"] and ((rc == 0 and err.strip()) or (rc == 1 and (out.strip() or not err.strip()))):
+                # the stream discipline holds for the command line as it does for execute()
+                ctx.violation("cli-streams:" + text, text, "status 0: result on stdout only; status 1: diagnostic on stderr only",
+                              "exit %r, stdout %r, stderr %r" % (rc, out[-120:], err[-120:]), "HOME=<empty> python -m ka.cli %r" % text)
+    # ---- (vi-b) the same through a script file: `ka --script f` evaluates the file's text; its exit code is that status
+    sdir = os.path.join(home, "scripts")
+    os.makedirs(sdir, exist_ok=True)
+    scripts = ["1+1", "1/0", "x = 2; x^10", "x = 2; y", "{1,2", "2 m to s", "1.5e400", "", "a = 3; a!; a/0", "5 kg to g"]
+    if not ctx.quick():
+        scripts += [c[2] for c in rng.sample(cases, min(40, len(cases))) if "\x00" not in c[2]]
+
+    def script(it):
+        i, text = it
+        path = os.path.join(sdir, "s%d.ka" % i)
+        try:
+            with open(path, "w", encoding="utf-8", newline="") as f:
+                f.write(text)
+            back = open(path, "r").read()
+        except (OSError, UnicodeError):
+            return None
+        if back != text:            # universal newlines / undecodable text: the file does not hold this input
+            return None
+        try:
+            p = subprocess.run([sys.executable, "-m", "ka.cli", "--script", path], env=env, stdout=subprocess.PIPE, stderr=subprocess.PIPE, text=True, timeout=60)
+        except subprocess.TimeoutExpired:
+            return (text, "timeout", "", "")
+        return (text, p.returncode, p.stdout, p.stderr)
+    with ThreadPoolExecutor(8) as ex:
+        for res in ex.map(script, list(enumerate(scripts))):
+            if res is None:
+                continue
+            text, rc, out, err = res
+            r = R.execute(text, timeout=4)
+            ctx.count("script:" + text, bucket="cli-script")
+            if r["escaped"] is None and r["status"] is None:
+                continue
+            if "Traceback" in err or rc != r["status"]:
+                ctx.violation("cli-script:" + text, text, "exit code = execute status %r, no traceback" % r["status"],
+                              "exit %r, stderr %s" % (rc, err[-200:]), "HOME=<empty> python -m ka.cli --script <file holding %r>" % text)
 
 
 # ---- refinement lemmas of the unified pipeline model for this property (Props/Pipeline2.lean): the fragment this check's
